@@ -3,7 +3,7 @@
  "name": "super_and_bgd_loc2",
  "props": ["C07", "C20"],
  "level": "U",
- "tier": "wip",
+ "tier": "quick",
  "harness": "h_super_and_bgd_loc2",
  "enforce": ["ext2fs_super_and_bgd_loc2"],
  "replace": ["ext2fs_bg_has_super"],
